@@ -17,7 +17,7 @@ class C12(Prop):
             "NRB/ISB/custom/unknown blocks at random positions, legacy pcap us/ns magic in both byte orders (with -l); "
             "oracle: output bytes identical to the baseline's; one evaluation = one export; non-trivial = the variant's "
             "container bytes differ and the baseline exported packets; distinct = (scenario, variant)")
-    reach = ["be", "dec3", "dec9", "bin", "tsoffset", "blocks", "opts", "pcap_us_le", "pcap_us_be", "pcap_ns_le",
+    reach = ["be", "dec3", "dec9", "bin", "tsoffset", "tsoffset_option_before_tsresol", "blocks", "opts", "pcap_us_le", "pcap_us_be", "pcap_ns_le",
              "pcap_ns_be", "quic_world"]
 
     def plan(self, tier):
@@ -54,7 +54,9 @@ class C12(Prop):
             ["pcap_ns_le", {"fmt": "pcap", "ns": True}],
             ["pcap_ns_be", {"fmt": "pcap", "ns": True, "be": True}],
             ["mix", {"be": V.chance(50), "tsresol": ["dec", V.choice([6, 7, 8, 9])], "blocks": V.bits(30),
-                     "tsoffset": offs(0, -5, 7200), "epb_opts": V.chance(50)}],
+                     "tsoffset": offs(0, -5, 7200), "epb_opts": V.chance(50), "tsoffset_first": V.chance(50)}],
+            ["tsoffset_option_before_tsresol", {"be": V.chance(30), "tsresol": V.choice([["dec", 9], ["dec", 7], ["bin", 24]]),
+                                                "tsoffset": offs(-1, 3600, -86400, 1000000000), "tsoffset_first": True}],
         ]
         if ms:
             vs.append(["dec3", {"tsresol": ["dec", 3], "be": V.chance(30)}])
